@@ -98,6 +98,9 @@ def check_strict_verify(v, r, what='verify'):
             # strict mode stops at the first problem it meets; a discrepancy
             # in a directory visited before the loop is a legitimate answer
             return out, 'loop-or-earlier-mismatch'
+        if r[0] == 'OS' and ((getattr(v, 'oserr', None) and r[1] in v.oserr) or (r[1] == 'ENOTDIR' and getattr(v, 'enotdir', False))):
+            # ... and so is the genuine OS error of an object met before the loop
+            return out, 'loop-or-earlier-os-error'
         out.append(viol('walk.loop-not-reported', '%s: symlink loop, gemato %s' % (what, describe(r)), sig='%s:%s' % (r[0], r[1])))
         return out, None
     raise AssertionError(k)
